@@ -10,6 +10,7 @@ import (
 	"net/url"
 	"runtime"
 	"sort"
+	"strconv"
 	"strings"
 	"sync"
 	"time"
@@ -479,6 +480,13 @@ func (e *Exchange) runHandler() {
 	sreq, _ := http.NewRequestWithContext(e.serverCtx, e.Method, e.URL, &reqBody{e: e})
 	sreq.Header = e.ReqHeader.Clone()
 	sreq.ContentLength = -1
+	if cl := e.ReqHeader.Get("Content-Length"); cl != "" {
+		// net/http exposes a declared length to the handler (the body itself is
+		// whatever actually arrives)
+		if n, err := strconv.ParseInt(cl, 10, 64); err == nil && n >= 0 {
+			sreq.ContentLength = n
+		}
+	}
 	sreq.RequestURI = e.clientReq.URL.RequestURI()
 	if c.K.HTTP2 {
 		sreq.Proto, sreq.ProtoMajor, sreq.ProtoMinor = "HTTP/2.0", 2, 0
